@@ -168,7 +168,9 @@ class WorkerState:
         pos, kw = self.visible(fd)
         args, kwargs = [], {}
         names = [n for n, _ in pos]
-        last_needed = max([i for i, (n, p) in enumerate(pos) if p.default is specs.NO_DEFAULT or n == target] + [-1])
+        # required parameters, the target, and every lambda (optional predicates / selectors are the interesting ones)
+        last_needed = max([i for i, (n, p) in enumerate(pos) if p.default is specs.NO_DEFAULT or n == target
+                           or isinstance(p.value_type, self.yaqltypes.Lambda)] + [-1])
         for i, (n, p) in enumerate(pos):
             if i > last_needed:
                 break
@@ -360,10 +362,12 @@ class Worker:
             pass
 
 
-def run_pool(cases, nworkers=16):
-    """runs the cases on a pool of watchdogged worker processes; returns results in order"""
+def run_pool(cases, nworkers=16, give_up_after=40):
+    """runs the cases on a pool of watchdogged worker processes; returns results in order.  After `give_up_after`
+    unexpected timeouts the remaining cases are skipped (a thoroughly broken tree must not cost hours)."""
     results = [None] * len(cases)
     nxt = [0]
+    bad = [0]
     lock = threading.Lock()
     nworkers = max(1, min(nworkers, len(cases)))
 
@@ -374,9 +378,17 @@ def run_pool(cases, nworkers=16):
                 with lock:
                     i = nxt[0]
                     nxt[0] += 1
+                    skip = bad[0] >= give_up_after
                 if i >= len(cases):
                     return
+                if skip:
+                    results[i] = dict(outcome='skipped', pulls=None, maxlen=None)
+                    continue
                 results[i] = w.ask(cases[i])
+                if results[i]['outcome'] in ('timeout', 'worker-died') and not (
+                        cases[i].get('part') in ('S', 'E') and known_nested(cases[i])):
+                    with lock:
+                        bad[0] += 1
         finally:
             w.kill()
     ts = [threading.Thread(target=loop) for _ in range(nworkers)]
@@ -436,6 +448,8 @@ def judge_bound(res, c, out, hist, what):
     N = c['N']
     oc = out['outcome']
     hist[oc] = hist.get(oc, 0) + 1
+    if oc == 'skipped':
+        return
     name = c.get('fn') or c.get('expr')
     if oc in ('timeout', 'worker-died'):
         if known_nested(c):
@@ -549,6 +563,8 @@ def run_shapes(env, res, rng, hist):
             for (t2l, s2l) in ((True, False), (False, True)):
                 c10.SRC.clear()
                 obj = c10.build(sc['v'])
+                src_j = c10.penc(obj)       # the very object that is evaluated (set iteration order is per object)
+                raw_j = c10.py_in(src_j) if conv_in else src_j
                 out = c10.run_real(real, '$', obj, t2l, s2l, N, conv_in)
                 case = dict(part='R', v=sc['v'], N=N, conv_in=conv_in, opts=[t2l, s2l])
                 res.case('R' + common.digest([sc['v'], N, conv_in, t2l, s2l]), sc['L'] is None or sc['L'] >= 1,
@@ -581,6 +597,8 @@ def run_shapes(env, res, rng, hist):
                     real_cls = 'ok' if out[0] == 'ok' else {'tooLarge': 'tooLarge', 'unhashable-finalize': 'unhashable'}.get(out[1], out[1])
                     model_cls = 'ok' if 'ok' in m else m.get('err')
                     res.traces += 1
+                    if not bounded and not clean and real_cls in ('tooLarge', 'unhashable') and model_cls in ('tooLarge', 'unhashable'):
+                        continue        # two faults: which one is hit first depends on the iteration order of a set
                     if real_cls != model_cls:
                         res.fail('mismatch', 'model-finalize', '%s: real %s, model %s' % (tag, real_cls, model_cls), case)
 
@@ -751,6 +769,8 @@ def quota_cases(rng, tier, sizes):
 def judge_quota(env, res, c, out, hist):
     oc = out['outcome']
     hist['Q:' + oc] = hist.get('Q:' + oc, 0) + 1
+    if oc == 'skipped':
+        return
     Q = c['Q']
     what = '%s%s under yaql.memoryQuota=%d' % (c['expr'][:120], ' ($ = %s of %d)' % (c.get('kind'), c.get('n')) if c['sub'] == 'rep' else '', Q)
     if oc in ('timeout', 'worker-died', 'MemoryError'):
@@ -833,14 +853,15 @@ def run(env, res):
     # ---- S + E + Q in the worker pool
     targets, nfuncs = sweep_targets()
     cases = []
+    NS_ = NS if tier == 'quick' else NS + [3, 10]
     for t in targets:
         lams = ['true', 'false', 'ident'] if t['lambdas'] else ['none']
         if t['target'] is None:
-            for N in NS:
+            for N in NS_:
                 cases.append(dict(op='sweep', part='S', fn=t['fn'], payload=t['payload'], target=None, N=N, elem='int',
                                   wrap='direct', lam='src'))
             continue
-        for N in NS:
+        for N in NS_:
             for elem in ('int', 'etuple', 'eiter'):
                 for wrap in (['direct'] if t['direct'] else []) + (['in_list'] if t['wrapped'] else []):
                     for lam in lams:
@@ -878,9 +899,15 @@ def run(env, res):
     pulled = 0
     for c, out in zip(allc, outs):
         if c.get('part') == 'Q':
+            if out['outcome'] == 'skipped':
+                qhist['Q:skipped'] = qhist.get('Q:skipped', 0) + 1
+                continue
             res.case('Q' + common.digest([c['expr'], c['data'], c['Q']]), out['outcome'] in ('returned', 'Quota'),
                      sample=dict(expr=c['expr'], Q=c['Q'], outcome=out['outcome']) if res.evaluations % 700 == 0 else None)
             judge_quota(env, res, c, out, qhist)
+            continue
+        if out['outcome'] == 'skipped':
+            hist['skipped'] = hist.get('skipped', 0) + 1
             continue
         nontrivial = bool(out.get('pulls')) or out['outcome'] in ('timeout',)
         pulled += nontrivial
